@@ -47,6 +47,9 @@ def check(m, run):
     sp1(m, run)
     ev1_ag3(m, run)
     ev2(m, run)
+    n_k = len(run.obs)
+    _sd.ks2(m, run)
+    ks_ok = all(o.ok for o in run.obs[n_k:])
     nk1(m, run)
     from .. import ops_common as _oc
     _oc.unit_range_rule(m, run, ('evaluate', 'evaluate_single', 'evaluate_list', 'derivatives', 'insert_knot', 'remove_knot'))
